@@ -369,6 +369,13 @@ def run_check(prop, cfg, tier, seed):
             orig = open(plan_path).read()
             # gate: fresh-process reproduction of the original plan
             first = exec_plan(flavour, orig)
+            # How ASan labels a wild heap access (overflow / use-after-free / unknown
+            # address) depends on what happens to lie at that address, i.e. on the heap
+            # history of the process - a long-lived worker and a fresh process differ.
+            # Within the sanitizer-crash family the fresh-process label is the one that
+            # replays, so it is the one reported.
+            if first["cls"] != cls and cls.startswith("crash:sanitizer:") and first["cls"].startswith("crash:sanitizer:"):
+                cls = first["cls"]
             if first["cls"] != cls:
                 log("HARNESS-NONDETERMINISM: violation %s (runseed %s, %s) did not reproduce in a fresh process (got %s)" % (cls, v["runseed"], flavour, first["cls"]))
                 rc = 2
